@@ -19,3 +19,9 @@ Definition ex_module : module :=
       1; 0; 0; 0; 0; 0; 0; 0; 0; 17; 0; 0; 16; 0; 0; 1; 3; 0; 0; 0; 0; 0; 0; 0; 42; 58; 16; 0; 0; 0; 4; 2; 0; 0; 0; 164;
       56; 232; 255; 255; 255; 107; 7; 0; 21; 0; 0; 0; 59; 0; 0; 0; 0; 1; 251; 255; 255; 255; 255; 255; 255; 255; 57; 6; 0; 0; 0; 61].
 Definition ret1 : list byte := [61].
+
+(* n JMP_FALSE instructions that all jump to the final RET *)
+Fixpoint jfs (n : nat) : list byte :=
+  match n with O => [61] | S k => 58 :: le_bytes 4 (N.of_nat (5 * S k)) ++ jfs k end.
+Definition many_jumps_module : module := Mo 1 0 [B "f"] [Fe 0 0 0 (N.of_nat (5 * 2049 + 1)) 1 0] (jfs 2049).
+Definition long_string_module : module := Mo 1 0 [B "f"; repeat 120 4096] [Fe 0 0 0 1 1 0] ret1.
